@@ -77,3 +77,61 @@ def live_block_timers(loop, circuit):
         if owner is not None and id(owner) in blocks:
             out.append(h)
     return out
+
+
+class StubQueue:
+    """List-backed stand-in for Circuit.sblock_queue when no event loop is involved."""
+
+    def __init__(self):
+        self.items = []
+
+    def put_nowait(self, x):
+        self.items.append(x)
+
+    def empty(self):
+        return not self.items
+
+    def get_nowait(self):
+        return self.items.pop(0)
+
+    def qsize(self):
+        return len(self.items)
+
+
+def sync_circuit():
+    """Fresh circuit usable without an event loop (stub change queue)."""
+    circ = fresh_circuit()
+    circ.sblock_queue = StubQueue()
+    return circ
+
+
+def start_sync(circ, strict=False):
+    """The synchronous part of run_forever()'s start sequence, using the real methods:
+    resolve names, finalize, start() every block, initialise all SBlocks.
+    strict=False: blocks may stay uninitialised (they are initialised by the harness later)."""
+    circ._check_persistent_data()
+    circ._resolver.resolve()
+    circ.finalize()
+    for blk in circ.getblocks():
+        blk.start()
+    circ._init_sblocks_sync_1()
+    if strict:
+        circ._init_sblocks_sync_2()
+    else:
+        for blk in circ.getblocks(edzed.SBlock):
+            circ.init_sblock(blk, full=False)
+
+
+class SinkProbe(edzed.SBlock):
+    """Probe appending (name, etype, data) to a shared list; handler result is configurable."""
+
+    def __init__(self, *args, sink, **kwargs):
+        self.sink = sink
+        super().__init__(*args, **kwargs)
+
+    def init_regular(self):
+        self.set_output(0)
+
+    def _event(self, etype, data):
+        self.sink.append((self.name, etype, dict(data)))
+        return ('probe', self.name, len(self.sink))
